@@ -335,7 +335,7 @@ class Labware:
         self._labels.append(label)
         return
 
-    def condense_log(self, n: int, label: Optional[str] = "last") -> None:
+    def condense_log(self, n: int, label: Optional[str] = "last", *, verbatim: bool = False) -> None:
         """Condense the last n log entries.
 
         Parameters
@@ -344,13 +344,15 @@ class Labware:
             Number of log entries to condense
         label : str
             'first', 'last' or label of the condensed entry (default: label of the last entry in the condensate)
+        verbatim : bool
+            If True, the label is used as given, also when it reads 'first' or 'last'.
         """
         if n < 1:
             # nothing to condense (``lst[:-0]`` would drop the entire history)
             return
-        if label == "first":
+        if label == "first" and not verbatim:
             label = self._labels[len(self._labels) - n]
-        if label == "last":
+        if label == "last" and not verbatim:
             label = self._labels[-1]
         state = self._history[-1]
         # cut away the history
